@@ -84,7 +84,12 @@ def do_replay(path):
             print(f"  {'HOLDS ' if ok else 'FAILS '} {l}")
     for k, v in cc.outputs.items():
         print(f"  out {k} = {v}")
-    viol = (st == "raised" and r["kind"] == "raise") or any(l == r["label"] and not ok for l, ok in cc.obls)
+    import math as _m
+    import numpy as _n
+    nonfinite = [k for k, v in cc.outputs.items() for x in (list(v) if isinstance(v, (list, tuple, _n.ndarray)) else [v])
+                 if isinstance(x, (float, _n.floating)) and not _m.isfinite(x)]
+    viol = (st == "raised" and r["kind"] in ("raise", "hazard")) or (r["kind"] == "hazard" and bool(nonfinite)) or \
+        any(l == r["label"] and not ok for l, ok in cc.obls)
     if viol:
         print(f"VIOLATION property={r['property']} replay={path}")
         return 1
@@ -208,6 +213,8 @@ def main():
             e["sample"] = e["sample"] or d["sample"]
             if kind == "raise" and prop not in h.opts.get("raise_props", ["C16"]):
                 inconclusive.append(f"{hn}[{ck}]: {d['n']} path(s) ended with an exception of the code under analysis before the obligations were reached: {d['sample']['detail'][:200]}")
+            if kind.endswith("!") and d["confirmed"] and prop == "C16" and prop in h.props:
+                violations.append((hn, ck, f"C16:finite outputs, no arithmetic fault [{kind[:-1]}: {d['sample']['detail'][:160]}]", {"inputs": d["sample"]["inputs"], "hazard": True}, d["confirmed"]))
             if prop in h.opts.get("raise_props", ["C16"]) and prop in h.props:
                 if kind == "raise" and d["confirmed"]:
                     violations.append((hn, ck, f"{prop}:no exception [{d['sample']['detail'][:140]}]", {"inputs": d["sample"]["inputs"], "raise": True}, d["confirmed"]))
@@ -246,7 +253,7 @@ def main():
         if key in seen:
             continue
         seen.add(key)
-        kind = "raise" if (cex or {}).get("raise") else "obligation"
+        kind = "raise" if (cex or {}).get("raise") else ("hazard" if (cex or {}).get("hazard") else "obligation")
         path = write_replay(prop, hn, ck, cfg, label, (cex or {}).get("inputs"), kind=kind)
         # replay once more here, in this process, against the unpatched code
         rc = do_replay(path) if cfg is not None else 1
